@@ -7,7 +7,8 @@ import textwrap
 from typing import Dict, Iterable, Optional
 
 from ..model import AnalysisError, ClassInfo, FuncInfo, Model
-from ..vn import Evaluator, Raise, Unreadable, canon_paths, same_function
+from ..norm import srepr
+from ..vn import BudgetExceeded, Evaluator, Raise, Unreadable, canon_paths, same_function
 
 
 def ref_func(model: Model, like: FuncInfo, src: str) -> FuncInfo:
@@ -48,14 +49,27 @@ def formula_check(res, model: Model, qual: str, ref_src: str, what: str, opaque:
     f = qual if isinstance(qual, FuncInfo) else model.func(qual)
     qual = f.qualname if isinstance(qual, FuncInfo) else qual
     rf = ref_func(model, f, ref_src)
+    opaque = list(opaque)
     try:
-        ev1 = Evaluator(model, opaque_funcs=opaque, extern=extern, int_is_floor=int_is_floor, max_paths=max_paths)
+        p1 = None
+        for _attempt in range(4):
+            try:
+                ev1 = Evaluator(model, opaque_funcs=opaque, extern=extern, int_is_floor=int_is_floor, max_paths=max_paths)
+                if aliases:
+                    ev1.attr_alias = dict(aliases)
+                p1 = ev1._function_paths_ctx(f, {}, None, 0, model.cls(selfcls) if selfcls else f.cls)
+                break
+            except BudgetExceeded as be:
+                # a callee with too many paths is summarised as an opaque pure call (on both sides)
+                if be.func in opaque or be.func == f.name:
+                    raise
+                opaque.append(be.func)
         ev2 = Evaluator(model, opaque_funcs=opaque, extern=extern, int_is_floor=int_is_floor, max_paths=max_paths)
         if aliases:
-            ev1.attr_alias = dict(aliases)
             ev2.attr_alias = dict(aliases)
         sc = model.cls(selfcls) if selfcls else f.cls
-        p1 = ev1._function_paths_ctx(f, {}, None, 0, sc)
+        if p1 is None:
+            raise Unreadable("path budget exceeded after summarising " + ", ".join(opaque[-3:]))
         p2 = ev2._function_paths_ctx(rf, align_params(f, rf), None, 0, sc)
     except Unreadable as e:
         raise AnalysisError(f"{res.prop}: {qual} is outside the evaluator's language ({e}); formula clause '{what}' "
@@ -96,12 +110,12 @@ def _norm_effect(e, ignore_kinds, ignore_calls, ordered=False, store_fields=None
         inner = []
         for conds, fx, r in e[2]:
             effs = [x for x in (_norm_effect(y, ignore_kinds, ignore_calls, ordered, store_fields) for y in fx) if x is not None]
-            es = tuple(repr(x) for x in effs)
+            es = tuple(srepr(x) for x in effs)
             inner.append((frozenset(conds), (es if ordered else tuple(sorted(es)), r)))
         # after dropping ignored effects, rows that no longer differ merge over complementary guards
         from ..vn import _merge_rows
-        inner = [(tuple(sorted(map(repr, c))), p[0], p[1]) for c, p in _merge_rows(inner)]
-        return ("foreach", e[1], tuple(sorted(inner, key=repr)))
+        inner = [(tuple(sorted(map(srepr, c))), p[0], p[1]) for c, p in _merge_rows(inner)]
+        return ("foreach", e[1], tuple(sorted(inner, key=srepr)))
     return e
 
 
@@ -113,10 +127,13 @@ def _sig(paths, ignore_kinds, ignore_calls, keep_raise_effects, ordered=False, s
         if isinstance(ret, Raise) and not keep_raise_effects:
             fx = ()
         effs = [x for x in (_norm_effect(e, ignore_kinds, ignore_calls, ordered, store_fields) for e in fx) if x is not None]
+        from ..vn import FX_STRUCT
+        for x in effs:
+            FX_STRUCT.setdefault(srepr(x), x)
         if ordered:
-            out.append((frozenset(conds), frozenset((f"{i:03d} " + repr(x), 1) for i, x in enumerate(effs)), ret))
+            out.append((frozenset(conds), frozenset((f"{i:03d} " + srepr(x), 1) for i, x in enumerate(effs)), ret))
         else:
-            out.append((frozenset(conds), frozenset(Counter(repr(x) for x in effs).items()), ret))
+            out.append((frozenset(conds), frozenset(Counter(srepr(x) for x in effs).items()), ret))
     return out
 
 
@@ -129,12 +146,25 @@ def effects_check(res, model: Model, qual: str, ref_src: str, what: str, effect_
     qual = f.qualname if isinstance(qual, FuncInfo) else qual
     rf = ref_func(model, f, ref_src)
     sc = model.cls(selfcls) if selfcls else f.cls
+    opaque = list(opaque)
     try:
-        e1, e2 = Evaluator(model, opaque_funcs=opaque), Evaluator(model, opaque_funcs=opaque)
+        p1 = None
+        for _attempt in range(4):
+            try:
+                e1 = Evaluator(model, opaque_funcs=opaque)
+                if aliases:
+                    e1.attr_alias = dict(aliases)
+                p1 = e1.effect_paths(f, effect_calls, sc)
+                break
+            except BudgetExceeded as be:
+                if be.func in opaque or be.func == f.name:
+                    raise
+                opaque.append(be.func)
+        e2 = Evaluator(model, opaque_funcs=opaque)
         if aliases:
-            e1.attr_alias = dict(aliases)
             e2.attr_alias = dict(aliases)
-        p1 = e1.effect_paths(f, effect_calls, sc)
+        if p1 is None:
+            raise Unreadable("path budget exceeded after summarising " + ", ".join(opaque[-3:]))
         p2 = e2.effect_paths(rf, effect_calls, sc, args=align_params(f, rf))
     except Unreadable as e:
         raise AnalysisError(f"{res.prop}: {qual} is outside the evaluator's language ({e}); ledger clause '{what}' "
